@@ -16,6 +16,16 @@ const HANDLER: u16 = 0xBDBD;
 fn setup_program(e: &mut Emu, kind: i64, r0: usize) {
     // main loop / idle loop in uncontended RAM
     match kind {
+        3..=6 => {
+            // DI; (kind-3) x INC HL; HALT  -- halted for good with interrupts disabled, entered at a T
+            // that is not a multiple of 4 for odd counts
+            let mut p = vec![0xF3];
+            for _ in 0..(kind - 3) {
+                p.push(0x23);
+            }
+            p.push(0x76);
+            write_mem(e, LOOP, &p);
+        }
         2 => write_mem(e, LOOP, &[0xFB, 0x76, 0xC3, 0x00, 0x80]), // EI; HALT; JP LOOP
         _ => write_mem(e, LOOP, &[0x23, 0xC3, 0x00, 0x80]),       // INC HL; JP LOOP
     }
@@ -28,7 +38,7 @@ fn setup_program(e: &mut Emu, kind: i64, r0: usize) {
     st.sp = 0xBD00;
     st.i = 0xBE;
     st.im = 2;
-    let ei = kind != 0;
+    let ei = kind == 1 || kind == 2;
     st.iff1 = ei;
     st.iff2 = ei;
     st.to_impl(e.verif_cpu());
@@ -63,7 +73,7 @@ impl Property for C05 {
         vec!["programs live in uncontended RAM (0x8000-0xBFFF), so instruction times are the documented ones (C03) and independent of C04", "arbitrary instruction mixes across frame boundaries are covered by C04's instruction-level runs"]
     }
     fn expected_probes(&self) -> Vec<&'static str> {
-        vec!["overrun_nonzero", "max_mode_call", "breakpoint_call", "multi_frame_call", "window_edge_31_32", "frame_end_step"]
+        vec!["halted_di_program", "overrun_nonzero", "max_mode_call", "breakpoint_call", "multi_frame_call", "window_edge_31_32", "frame_end_step"]
     }
 
     fn gen(&self, rng: &mut Rng, tier: Tier, idx: u64) -> Scenario {
@@ -77,7 +87,7 @@ impl Property for C05 {
         sc.set("kind", kind);
         match kind {
             0 => {
-                sc.set("prog", rng.range(0, 2));
+                sc.set("prog", *rng.pick(&[0i64, 0, 1, 1, 2, 2, 3, 4, 5, 6]));
                 let kmax = if tier == Tier::Quick { 40 } else { 400 };
                 let k = *rng.pick(&[1i64, 2, 3, 5, 16, 17]).min(&kmax).max(&1) + rng.range(0, kmax / 2);
                 sc.set("frames", k);
@@ -122,7 +132,8 @@ impl Property for C05 {
         let machine = if m128 { "128k" } else { "48k" };
         match sc.get("kind") {
             0 => {
-                let prog = sc.get("prog").clamp(0, 2);
+                let prog = sc.get("prog").clamp(0, 6);
+                let r_start = 0u8;
                 let r0 = sc.get("r0").clamp(0, f - 100) as usize;
                 setup_program(&mut e, prog, r0);
                 let mut rng = Rng::new(0);
@@ -171,9 +182,29 @@ impl Property for C05 {
                         ctx.probe("overrun_nonzero");
                     }
                     if r < 0 || r >= 32 {
+                        let _ = r_start;
                         return Err(Fail::new("C05.overrun", &format!("machine={}", machine), format!("in-frame offset {} right after a completed frame (longest instruction here is 19 T)", r)));
                     }
                     let ints = st.de as i64;
+                    if prog >= 3 {
+                        // halted with interrupts disabled: every step is one 4-T fetch that increments R,
+                        // so the elapsed time is 4 x (opcode fetches) + 2 per INC HL, modulo 512
+                        ctx.probe("halted_di_program");
+                        let n = prog - 3;
+                        let dr = (st.r.wrapping_sub(r_start) & 0x7F) as i64;
+                        let elapsed = frames * f + r - r0 as i64;
+                        if !st.halted || (elapsed - (4 * dr + 2 * n)).rem_euclid(512) != 0 {
+                            return Err(Fail::new(
+                                "C05.conservation",
+                                &format!("machine={},prog=di_halt", machine),
+                                format!("DI; {}x INC HL; HALT run for {} frames (offset {} -> {}): elapsed T = {} but the CPU fetched {} (mod 128) opcodes, i.e. {} T (mod 512); halted = {}", n, frames, r0, r, elapsed, dr, (4 * dr + 2 * n).rem_euclid(512), st.halted),
+                            ));
+                        }
+                        if ints != 0 {
+                            return Err(Fail::new("C05.int_with_di", &format!("machine={}", machine), "interrupt accepted with interrupts disabled".into()));
+                        }
+                        continue;
+                    }
                     if prog == 2 {
                         // idle loop: exactly one interrupt per frame, offset < 4 (HALT steps are 4 T)
                         let exp = frames - 1 + (r0 < 32) as i64;
